@@ -83,7 +83,7 @@ pub fn run_c03(ctx: &RunCtx) {
     ctx.set_rule("(a) generated programs of the supported subset with 0-3 injected semantic faults (semgen); (b) programs of the wider grammar: every statement and expression form the parser accepts, all operators in all operand positions, extreme literals, designators that are expressions/calls/negative/huge, shadowed built-ins; (c) mutated snippets and token soup filtered by the implementation itself to those with zero syntax diagnostics (yield reported). oracle: analysis returns under catch_unwind, program/symbol table/diagnostics are readable, scope depth is 1. non-trivial = zero syntax diagnostics and >=1 statement; distinct by text");
     ctx.assume("'syntax-error-free' is decided by the implementation's own parse_check_lex: have_parse and no diagnostics");
     // (b) wider grammar, syntactic generator with switches on (so that programs parse cleanly)
-    let n = ctx.pick(150_000u64, 10_000_000u64);
+    let n = ctx.pick(300_000u64, 10_000_000u64);
     ctx.random("wide-program", n, 900, |src| {
         let style = [Style::Minimal, Style::Spaced, Style::Wild][src.below(3)];
         let mut g = Gen::new(src, Switches::all_on());
@@ -114,7 +114,7 @@ pub fn run_c03(ctx: &RunCtx) {
     });
     // (c) filtered soup / mutants
     let snippets = crate::textgen::load_snippets();
-    let n = ctx.pick(150_000u64, 10_000_000u64);
+    let n = ctx.pick(300_000u64, 10_000_000u64);
     ctx.random("filtered-mutant", n, 24, |src| {
         let mut rep = CaseReport::default();
         if snippets.is_empty() {
